@@ -29,6 +29,11 @@ def load_mutants():
             if fn.endswith('.diff'):
                 ms.append({'id': 'refac:' + fn[:-5], 'props': [], 'benign': True, 'patch': os.path.join(bd, fn), 'expect': []})
     # behaviour-preserving rewrites outside the recognised idiom set: run and reported, never counted as a failure
+    rd = os.path.join(d, 'rb_patches')      # refactored-breaking variants kept as whole patches (a benign rewrite plus one break)
+    if os.path.isdir(rd):
+        for fn in sorted(os.listdir(rd)):
+            if fn.endswith('.diff'):
+                ms.append({'id': 'rbp:' + fn[:-5], 'props': [], 'patch': os.path.join(rd, fn), 'expect': [['*', '*']]})
     ud = os.path.join(d, 'unrecognised_patches')
     if os.path.isdir(ud):
         for fn in sorted(os.listdir(ud)):
